@@ -164,6 +164,9 @@ pub struct Ctx {
     start: Instant,
     evals: AtomicU64,
     nontrivial: Mutex<HashSet<u64>>,
+    /// non-trivial cases counted without hashing: only for enumerations whose cases are pairwise
+    /// distinct by construction
+    nontrivial_enum: AtomicU64,
     labels: Mutex<BTreeMap<String, u64>>,
     samples: Mutex<Vec<Value>>,
     known: Vec<KnownEntry>,
@@ -190,6 +193,7 @@ impl Ctx {
             start: Instant::now(),
             evals: AtomicU64::new(0),
             nontrivial: Mutex::new(HashSet::new()),
+            nontrivial_enum: AtomicU64::new(0),
             labels: Mutex::new(BTreeMap::new()),
             samples: Mutex::new(Vec::new()),
             known: load_known().into_iter().filter(|k| k.property == id).collect(),
@@ -215,7 +219,11 @@ impl Ctx {
         self.nontrivial.lock().unwrap().insert(h);
     }
     pub fn nontrivial_count(&self) -> usize {
-        self.nontrivial.lock().unwrap().len()
+        self.nontrivial.lock().unwrap().len() + self.nontrivial_enum.load(Ordering::Relaxed) as usize
+    }
+    /// for complete enumerations only: `n` further non-trivial cases, pairwise distinct by construction
+    pub fn nontrivial_enumerated(&self, n: u64) {
+        self.nontrivial_enum.fetch_add(n, Ordering::Relaxed);
     }
     pub fn label(&self, l: &str) {
         *self.labels.lock().unwrap().entry(l.to_string()).or_insert(0) += 1;
